@@ -24,8 +24,8 @@ CRets == IF Done /\ ~Redef THEN <<CRet>> ELSE <<>>
 CRedef == IF Done /\ Redef
           THEN [ev |-> "redef", ok |-> outcome.kind = "redef",
                 inputs |-> SetToSeq({[name |-> x.name, type |-> x.type, sub |-> x.sub] : x \in outcome.inputs}),
-                given |-> <<>>, toks |-> <<>>, toks3 |-> <<>>, execs |-> 0, detail |-> ""]
-          ELSE [ev |-> "none", ok |-> FALSE, inputs |-> <<>>, given |-> <<>>, toks |-> <<>>, toks3 |-> <<>>, execs |-> 0, detail |-> ""]
+                given |-> <<>>, given2 |-> <<>>, toks |-> <<>>, toks3 |-> <<>>, execs |-> 0, detail |-> ""]
+          ELSE [ev |-> "none", ok |-> FALSE, inputs |-> <<>>, given |-> <<>>, given2 |-> <<>>, toks |-> <<>>, toks3 |-> <<>>, execs |-> 0, detail |-> ""]
 
 \* the scenario as the harness reports it: supplied value j carries token j, one use = phase 1
 ScnC == [f \in DOMAIN scn \cup {"itoks", "phase0", "carry", "twinOf"} |->
